@@ -150,7 +150,7 @@ def clone_history_module(idx, shape, entry, named_mask, script):
 # ------------------------------------------------------------------------------------------------
 # C08
 # ------------------------------------------------------------------------------------------------
-def ops_module(idx, n, kind, entry, ops=None, generic=False, bounds=None, selfbound=None, leaf="Tm", repr_=None):
+def ops_module(idx, n, kind, entry, ops=None, generic=False, bounds=None, selfbound=None, leaf="Tm", repr_=None, names=None, with_default=False):
     """struct with n Tm fields deriving all 22 operator traits; driver exercises every form.
     leaf "Tc": the Copy, alignment-1 guise of the term algebra (needed for #[repr(packed)])"""
     ops = ops or BINOPS
@@ -168,13 +168,23 @@ def ops_module(idx, n, kind, entry, ops=None, generic=False, bounds=None, selfbo
         wh = " where X: ::dx_support::Rel<Self> + Only<Self>"
     TT = ("T<::dx_support::%s>" % leaf) if generic else "T"
     mkleaf = "tm" if leaf == "Tm" else "::dx_support::tc"
+    # field names: declaration order need not be alphabetical (names = "rev": f2, f1, f0; "mixed": zb, a, Zc ..)
+    fname = [("f%d" % j) for j in range(n)]
+    if names == "rev":
+        fname = [("f%d" % (n - 1 - j)) for j in range(n)]
+    elif names == "mixed":
+        fname = ["zb", "a", "m1", "b0", "y", "c"][:n]
+    # Default co-derived, the first field with an explicit default value: the operators must not look at it
+    dattr = ("#[default(::dx_support::%s(\"dflt\"))] " % ("tm" if leaf == "Tm" else "tc")) if with_default else ""
     if kind == "unit":
         decl = "pub struct T%s;" % g if not generic else None
     elif kind == "named":
-        decl = "pub struct T%s%s { %s }" % (g, wh, ", ".join("f%d: %s" % (j, ty) for j in range(n)))
+        decl = "pub struct T%s%s { %s }" % (g, wh, ", ".join("%s%s: %s" % (dattr if j == 0 else "", fname[j], ty) for j in range(n)))
     else:
-        decl = "pub struct T%s(%s)%s;" % (g, ", ".join(ty for _ in range(n)), wh)
+        decl = "pub struct T%s(%s)%s;" % (g, ", ".join((dattr if j == 0 else "") + ty for j in range(n)), wh)
     dtraits = list(traits)
+    if with_default:
+        dtraits = ["Default"] + dtraits
     if bounds == "shared_empty":
         dtraits = dtraits + ["bound()"]
     elif bounds == "this_dd":
@@ -196,11 +206,11 @@ def ops_module(idx, n, kind, entry, ops=None, generic=False, bounds=None, selfbo
         if kind == "unit":
             return "T"
         if kind == "named":
-            return "T { %s }" % ", ".join("f%d: %s" % (j, a) for j, a in enumerate(args))
+            return "T { %s }" % ", ".join("%s: %s" % (fname[j], a) for j, a in enumerate(args))
         return "T(%s)" % ", ".join(args)
-    acc = ["::std::string::String::from(t.f%d.0.as_str())" % j for j in range(n)] if kind == "named" else ["::std::string::String::from(t.%d.0.as_str())" % j for j in range(n)]
+    acc = ["::std::string::String::from(t.%s.0.as_str())" % fname[j] for j in range(n)] if kind == "named" else ["::std::string::String::from(t.%d.0.as_str())" % j for j in range(n)]
     if leaf == "Tc":
-        acc = ["::dx_support::tc_str({ t.%s%d })" % ("f" if kind == "named" else "", j) for j in range(n)]
+        acc = ["::dx_support::tc_str({ t.%s })" % (fname[j] if kind == "named" else str(j)) for j in range(n)]
     RESET = "::dx_support::tc_reset(); " if leaf == "Tc" else ""
     lines.append("    fn show(t: &%s) -> String { let v: Vec<String> = vec![%s]; ::dx_support::json_strs(&v) }" % (TT, ", ".join(acc)))
     lines.append("    pub fn run() -> String {\n        let mut out = String::new();")
@@ -263,7 +273,7 @@ GENERIC_OPERANDS = """    pub struct LT<G>(pub String, pub ::core::marker::Phant
     #[allow(dead_code)] impl<G> RT<G> { pub fn clone(&self) -> Self { ::dx_support::log("decoy:clone".to_string()); RT("decoy".to_string(), ::core::marker::PhantomData) } }"""
 
 
-def implop_module(idx, op, base, rhs_self, want_bin, want_assign, base_is_assign=False, generic=None, spell_self=False):
+def implop_module(idx, op, base, rhs_self, want_bin, want_assign, base_is_assign=False, generic=None, spell_self=False, assign_first=False, proj=False):
     """user impl of `op` in base form (bl, br) carrying #[derive_ex(..)]; returns (source, request-for-inproc, descriptor)"""
     bl, br = base
     L, R = ty_of("l", rhs_self), ty_of("r", rhs_self)
@@ -279,6 +289,8 @@ def implop_module(idx, op, base, rhs_self, want_bin, want_assign, base_is_assign
             ig = "<G: ::core::marker::Copy + ::dx_support::Rel<Self> + Only<Self>>"
     fn = FN[op]
     req = ([op] if want_bin else []) + ([op + "Assign"] if want_assign else [])
+    if assign_first:
+        req.reverse()
     attr = ", ".join(req)
     rhs_txt = refty(R, br == "r")
     if spell_self:
@@ -296,10 +308,14 @@ def implop_module(idx, op, base, rhs_self, want_bin, want_assign, base_is_assign
                 "self.0 = format!(\"assigned({},{})\", self.0, rhs.0); } }" % (ig, op, rhs_txt, L, iw, fn, rhs_txt))
     else:
         ctor = L.split("<")[0]
+        # `Self` only inside a projection `<Self as Pj>::O` (Output and where-clause): it must keep meaning the user's self type
+        out_txt = "<Self as Pj>::O" if proj else L
+        iw2 = (iw + (" where " if not iw else ", ") + "<Self as Pj>::O: ::core::marker::Sized") if proj else iw
         impl = ("impl%s ::core::ops::%s<%s> for %s%s { type Output = %s; fn %s(self, rhs: %s) -> %s { ::dx_support::log(\"call\".to_string()); "
-                "%s(format!(\"base({},{})\", self.0, rhs.0)%s) } }" % (ig, op, rhs_txt, refty(L, bl == "r"), iw, L, fn, rhs_txt, L, ctor, mk2))
+                "%s(format!(\"base({},{})\", self.0, rhs.0)%s) } }" % (ig, op, rhs_txt, refty(L, bl == "r"), iw2, out_txt, fn, rhs_txt, L, ctor, mk2))
     only = ("    pub trait Only<U: ?::core::marker::Sized> {}\n    impl<%sG> Only<%sLT<G>> for G {}" % (("'x, ", "&'x ") if (bl == "r" and not base_is_assign) else ("", ""))) if generic else ""
-    lines = ["pub mod m%d {" % idx, GENERIC_OPERANDS if generic else LOCAL_OPERANDS, only, "    #[::derive_ex::derive_ex(%s)] %s" % (attr, impl)]
+    pj = ("    pub trait Pj { type O; }\n    impl%s Pj for %sLT { type O = LT; }" % (("<'x>", "&'x ") if bl == "r" else ("", ""))) if proj else ""
+    lines = ["pub mod m%d {" % idx, GENERIC_OPERANDS if generic else LOCAL_OPERANDS, only, pj, "    #[::derive_ex::derive_ex(%s)] %s" % (attr, impl)]
     lines.append("    fn counts(lg: &[String]) -> (usize, usize, usize) { (lg.iter().filter(|s| *s == \"call\").count(), "
                  "lg.iter().filter(|s| s.starts_with(\"clone\") && s.ends_with(\":L\")).count(), lg.iter().filter(|s| s.starts_with(\"clone\") && s.ends_with(\":R\")).count()) }")
     lines.append("    pub fn run() -> String {\n        let mut out = String::new();")
@@ -360,7 +376,7 @@ def sn(name):
     return ("r#" + name) if name in RUST_KEYWORDS else name
 
 
-def debug_module(idx, desc, entry, rnd):
+def debug_module(idx, desc, entry, rnd, bounds=None):
     """desc: {"kind": "struct"|"enum", "variants": [{"name", "shape", "fields": [{"name", "ty": index into LEAF_TYPES, "dbg"}]}], "generic": bool}
     The twin (std derive, ignored fields deleted, same names) lives in a sub-module."""
     kind = desc["kind"]
@@ -372,7 +388,10 @@ def debug_module(idx, desc, entry, rnd):
         for f in v["fields"]:
             if twin and f["dbg"] in ("ignore", "both"):
                 continue
-            at = "" if twin or f["dbg"] == "none" else "#[debug(%s)] " % ("transparent, ignore" if f["dbg"] == "both" else f["dbg"])
+            dargs = [] if f["dbg"] == "none" else (["transparent", "ignore"] if f["dbg"] == "both" else [f["dbg"]])
+            if bounds == "field_helper" and not twin:
+                dargs.append("bound()")
+            at = "" if (twin or not dargs) else "#[debug(%s)] " % ", ".join(dargs)
             ty = LEAF_TYPES[f["ty"]][0] if not (gen and f.get("gen")) else "G"
             if twin and ty == "Inner":
                 ty = "super::Inner"
@@ -386,7 +405,8 @@ def debug_module(idx, desc, entry, rnd):
     g = ("<G: ?::core::marker::Sized>" if desc.get("maybe_unsized") else "<G>") if gen else ""
 
     def item(twin):
-        head = "#[derive(Debug)]" if twin else derive_head(["Debug"], entry)
+        head = "#[derive(Debug)]" if twin else derive_head({None: ["Debug"], "field_helper": ["Debug"], "this_empty": ["Debug(bound())"],
+                                                             "shared_empty": ["Debug", "bound()"], "this_dd": ["Debug(bound(..))"]}[bounds], entry)
         if kind == "struct":
             v = desc["variants"][0]
             body = fdecl(v, twin)
@@ -443,8 +463,9 @@ def debug_module(idx, desc, entry, rnd):
 # C11 Default
 # ------------------------------------------------------------------------------------------------
 DV_SRC = {"none": None, "str": "\"abc\"", "path": "::dx_support::SRC7", "assoc_path": "::dx_support::Holder::SRC3", "into_path": "::dx_support::SRCI8",
-          "call": "::dx_support::mk(5)", "block": "{ ::dx_support::mk(6) }", "method": "::dx_support::mk(4).same()", "int": "5", "neg": "-3"}
-DV_TY = {"int": "u8", "neg": "i8"}
+          "call": "::dx_support::mk(5)", "block": "{ ::dx_support::mk(6) }", "method": "::dx_support::mk(4).same()", "int": "5", "neg": "-3",
+          "bytes": "b\"ab\""}
+DV_TY = {"int": "u8", "neg": "i8", "bytes": "&'static [u8]"}
 
 
 def default_module(idx, P, entry, bounds=None):
@@ -494,7 +515,7 @@ def default_module(idx, P, entry, bounds=None):
     # the type-level special value: variant 1 with marker provenance
     v0 = P["variants"][0]
     path0 = "T" if P["kind"] == "struct" else "T::A0"
-    marks = [("Pr(\"type_level\".to_string())" if f["dv"] not in DV_TY else "77") for f in v0["fields"]]
+    marks = [("Pr(\"type_level\".to_string())" if f["dv"] not in DV_TY else ("&[7u8, 7u8][..]" if f["dv"] == "bytes" else "77")) for f in v0["fields"]]
     if v0["shape"] == "named":
         sp = "%s { %s }" % (path0, ", ".join("f%d: %s" % (j, m) for j, m in enumerate(marks)))
     elif v0["shape"] == "tuple":
@@ -513,7 +534,9 @@ def default_module(idx, P, entry, bounds=None):
             pat = "%s(%s)" % (path, ", ".join("g%d" % j for j in range(n)))
         else:
             pat = path
-        shows = [("::std::string::String::from(g%d.0.as_str())" % j) if f["dv"] not in DV_TY else ("(if *g%d as i32 == 77 { \"type_level\".to_string() } else { format!(\"int:{}\", g%d) })" % (j, j))
+        shows = [("::std::string::String::from(g%d.0.as_str())" % j) if f["dv"] not in DV_TY else
+                 (("(if *g%d == &[7u8, 7u8][..] { \"type_level\".to_string() } else { format!(\"bytes:{:?}\", g%d) })" % (j, j)) if f["dv"] == "bytes" else
+                  ("(if *g%d as i32 == 77 { \"type_level\".to_string() } else { format!(\"int:{}\", g%d) })" % (j, j)))
                  for j, f in enumerate(v["fields"])]
         lines.append("        %s => (%d, vec![%s])," % (pat, vi + 1, ", ".join(shows)))
     lines.append("    } }")
@@ -542,6 +565,27 @@ DEREF_SELF = """pub mod m%d {
                 same_address, target_is_field_type, mut_same_address, write_lands)
     }
 }"""
+
+
+def deref_macro_module(idx, frag, entry):
+    """single-field struct written by a macro_rules! macro; the field type arrives as an `ident` or `tt` fragment"""
+    head = derive_head(["Deref", "DerefMut"], entry)
+    pat = "$t:ident" if frag == "ident" else "$($t:tt)+"
+    use = "$t" if frag == "ident" else "$($t)+"
+    return """pub mod m%d {
+    macro_rules! newtype { ($n:ident, %s) => { %s pub struct $n(pub %s); } }
+    newtype!(T, u32);
+    pub fn run() -> String {
+        let mut x: T = T(3u32);
+        let same_address = { let p: *const u32 = &x.0; let q: *const u32 = <T as ::core::ops::Deref>::deref(&x); ::core::ptr::eq(p, q) };
+        let target_is_field_type = ::core::any::type_name::<<T as ::core::ops::Deref>::Target>() == ::core::any::type_name::<u32>();
+        let mut_same_address = { let p: *const u32 = &x.0; let q: *const u32 = <T as ::core::ops::DerefMut>::deref_mut(&mut x); ::core::ptr::eq(p, q) };
+        *<T as ::core::ops::DerefMut>::deref_mut(&mut x) = 8u32;
+        let write_lands = x.0 == 8u32;
+        format!("{{\\"id\\":%d,\\"same_address\\":{},\\"target_is_field_type\\":{},\\"mut_same_address\\":{},\\"write_lands\\":{}}}\\n",
+                same_address, target_is_field_type, mut_same_address, write_lands)
+    }
+}""" % (idx, pat, head, use, idx)
 
 
 def deref_self_module(idx, entry):
@@ -786,6 +830,17 @@ C12_SPECIAL = [
         let debug_equal = a.iter().zip(b.iter()).all(|(x, y)| { let (p, q) = (format!("{:?}", x), format!("{:?}", y)); if p != q { diff = format!("{} vs {}", p, q); } p == q });
         let eq_equal = ::dx_support::table_eq(&a) == ::dx_support::table_eq(&b);
         format!("{{\\"id\\":IDX,\\"nvals\\":3,\\"debug_equal\\":{},\\"eq_equal\\":{},\\"diff\\":\\"{}\\"}}\\n", debug_equal, eq_equal, ::dx_support::json_str(&diff))"""),
+    ("assoc_shorthand", ["Clone", "Debug", "PartialEq", "Eq", "PartialOrd", "Ord", "Hash"], "pub struct T<G: ::dx_support::Tr> { pub key: G::Assoc, pub n: u8 }", "COMPILE_ONLY"),
+    ("assoc_shorthand_enum", ["Clone", "Debug", "PartialEq", "Hash"], "pub enum T<G: ::dx_support::Tr> { Key(G::Assoc), Pair(u8, ::core::option::Option<G::Assoc>), Nil }", "COMPILE_ONLY"),
+    ("ord_but_partially_ordered_field", ["Clone", "Debug", "PartialEq", "Eq", "PartialOrd", "Ord"], "pub struct T(pub ::dx_support::QO, pub u8);",
+     """let xs = [(0u8, 1u8, 0u8), (1, 1, 0), (0, 2, 0), (1, 0, 3), (0, 1, 5)];
+        let a: ::std::vec::Vec<dx::T> = xs.iter().map(|x| dx::T(::dx_support::QO(x.0, x.1), x.2)).collect();
+        let b: ::std::vec::Vec<sd::T> = xs.iter().map(|x| sd::T(::dx_support::QO(x.0, x.1), x.2)).collect();
+        let debug_equal = a.iter().zip(b.iter()).all(|(x, y)| format!("{:?}", x) == format!("{:?}", y));
+        let eq_equal = ::dx_support::table_eq(&a) == ::dx_support::table_eq(&b);
+        let cmp_equal = ::dx_support::table_cmp(&a) == ::dx_support::table_cmp(&b);
+        let pcmp_equal = ::dx_support::table_pcmp(&a) == ::dx_support::table_pcmp(&b) && ::dx_support::table_ops(&a) == ::dx_support::table_ops(&b);
+        format!("{{\\"id\\":IDX,\\"nvals\\":5,\\"debug_equal\\":{},\\"eq_equal\\":{},\\"cmp_equal\\":{},\\"pcmp_equal\\":{},\\"diff\\":\\"\\"}}\\n", debug_equal, eq_equal, cmp_equal, pcmp_equal)"""),
     ("where_self", ["Clone", "Debug", "PartialEq", "Eq", "Hash"], "pub struct T<G> where Self: ::core::marker::Sized, G: ::core::marker::Copy { pub a: G }",
      """let a = vec![dx::T { a: 1u8 }, dx::T { a: 2u8 }]; let b = vec![sd::T { a: 1u8 }, sd::T { a: 2u8 }];
         let debug_equal = a.iter().zip(b.iter()).all(|(x, y)| format!("{:?}", x) == format!("{:?}", y));
